@@ -698,6 +698,13 @@ func (ex *Exec) havocDesignator(envPre *SpecEnv, st *State, d *SExpr) {
 			nh := Fresh(hr.name, srt)
 			ex.heapFacts(hr.name, nh, st.wm)
 			ex.heapSet(st, hr.name, nh)
+		} else if hr.sub != nil {
+			// one element of a slice: the other elements of the backing array keep their values
+			_, es := srt.splitArr()
+			_, leaf := es.splitArr()
+			el := Fresh(hr.name+"_el", leaf)
+			ex.rowFacts(hr.name, el, st.wm)
+			ex.heapSet(st, hr.name, Store(cur, hr.idx, Store(Select(cur, hr.idx), hr.sub, el)))
 		} else {
 			_, es := srt.splitArr()
 			row := Fresh(hr.name+"_at", es)
@@ -711,6 +718,7 @@ type heapRef struct {
 	name string
 	sort Sort
 	idx  *Term // nil = whole heap
+	sub  *Term // element heaps: position inside the row (nil = the whole row, i.e. every element of the backing array)
 }
 
 // designatorHeaps resolves a modifies designator.
@@ -733,7 +741,7 @@ func (ex *Exec) designatorHeaps(env *SpecEnv, d *SExpr) []heapRef {
 			t := ex.resolveType(env, root.Args[1].String())
 			t, path = ex.normPath(t, path)
 			for _, l := range leavesUnder(t, path) {
-				out = append(out, heapRef{fieldHeapName(t, l.Path), ArrSort(SInt, l.Sort), nil})
+				out = append(out, heapRef{fieldHeapName(t, l.Path), ArrSort(SInt, l.Sort), nil, nil})
 			}
 			return out
 		}
@@ -745,9 +753,9 @@ func (ex *Exec) designatorHeaps(env *SpecEnv, d *SExpr) []heapRef {
 		for _, l := range Layout(loc.T) {
 			switch loc.Kind {
 			case locField:
-				out = append(out, heapRef{fieldHeapName(loc.Obj, loc.Prefix+l.Path), ArrSort(SInt, l.Sort), loc.Base})
+				out = append(out, heapRef{fieldHeapName(loc.Obj, loc.Prefix+l.Path), ArrSort(SInt, l.Sort), loc.Base, nil})
 			case locElem:
-				out = append(out, heapRef{elemHeapName(loc.Obj, loc.Prefix+l.Path), ArrSort(SInt, ArrSort(SInt, l.Sort)), loc.Base})
+				out = append(out, heapRef{elemHeapName(loc.Obj, loc.Prefix+l.Path), ArrSort(SInt, ArrSort(SInt, l.Sort)), loc.Base, nil})
 			default:
 				unsupported("modifies designator on a local: %s", d)
 			}
@@ -770,13 +778,13 @@ func (ex *Exec) designatorHeaps(env *SpecEnv, d *SExpr) []heapRef {
 				if v.Loc != nil {
 					for _, l := range Layout(v.Loc.T) {
 						if v.Loc.Kind == locField {
-							out = append(out, heapRef{fieldHeapName(v.Loc.Obj, v.Loc.Prefix+l.Path), ArrSort(SInt, l.Sort), v.Loc.Base})
+							out = append(out, heapRef{fieldHeapName(v.Loc.Obj, v.Loc.Prefix+l.Path), ArrSort(SInt, l.Sort), v.Loc.Base, nil})
 						}
 					}
 					return out
 				}
 				for _, l := range Layout(et) {
-					out = append(out, heapRef{fieldHeapName(et, l.Path), ArrSort(SInt, l.Sort), v.S()})
+					out = append(out, heapRef{fieldHeapName(et, l.Path), ArrSort(SInt, l.Sort), v.S(), nil})
 				}
 				return out
 			case "contents", "allmaps":
@@ -786,9 +794,9 @@ func (ex *Exec) designatorHeaps(env *SpecEnv, d *SExpr) []heapRef {
 				if d.Args[0].Name == "contents" {
 					idx = v.S()
 				}
-				out = append(out, heapRef{mh.domName(), mh.domSort(), idx}, heapRef{mh.lenName(), ArrSort(SInt, SInt), idx})
+				out = append(out, heapRef{mh.domName(), mh.domSort(), idx, nil}, heapRef{mh.lenName(), ArrSort(SInt, SInt), idx, nil})
 				for _, l := range mh.vals {
-					out = append(out, heapRef{mh.valName(l), mh.valSort(l), idx})
+					out = append(out, heapRef{mh.valName(l), mh.valSort(l), idx, nil})
 				}
 				return out
 			case "elems", "allelems":
@@ -802,7 +810,7 @@ func (ex *Exec) designatorHeaps(env *SpecEnv, d *SExpr) []heapRef {
 					idx = v.L[0]
 				}
 				for _, l := range Layout(sl.Elem()) {
-					out = append(out, heapRef{elemHeapName(sl.Elem(), l.Path), ArrSort(SInt, ArrSort(SInt, l.Sort)), idx})
+					out = append(out, heapRef{elemHeapName(sl.Elem(), l.Path), ArrSort(SInt, ArrSort(SInt, l.Sort)), idx, nil})
 				}
 				return out
 			case "allfields":
@@ -811,7 +819,7 @@ func (ex *Exec) designatorHeaps(env *SpecEnv, d *SExpr) []heapRef {
 					t = p
 				}
 				for _, l := range Layout(t) {
-					out = append(out, heapRef{fieldHeapName(t, l.Path), ArrSort(SInt, l.Sort), nil})
+					out = append(out, heapRef{fieldHeapName(t, l.Path), ArrSort(SInt, l.Sort), nil, nil})
 				}
 				return out
 			}
